@@ -200,9 +200,9 @@ ADDED = {
  "C17": " Also: the decoded source list keeps the positions its id map was built with (C17-R5 = C16-R9).",
  "C18": " Also: any external call that receives a &mut vector or slice of descriptions is a write (sorting through DerefMut included).",
  "C05": " Also: an SI prefix symbol in front of an SI unit symbol keeps its SI meaning (C05-R8); a unit word met twice must carry the same prefix, found out before anything is changed (C05-R9, summary of Compound::update).",
- "C08": " Also: the scientific form is decided, whatever its code looks like, on whole parts of 1..5 digits with limits 0..3 (bounded form of C08-R6: the digit string is a sequence of symbolic characters, the fraction digits come from the symbolic generator).",
+ "C08": " Also: the scientific form is decided, whatever its code looks like, on whole parts of 1..5 digits with limits 0..3 (bounded form of C08-R6: the digit string is a sequence of symbolic characters, the fraction digits come from the symbolic generator); the plain form with limits 0..3 and the small-fraction form with 0..3 leading zeros, limits 1..3, exponent limits 1..3 likewise (bounded C08-R4 / R5); where the inductive forms cannot recognise the loop layout and the bounded form holds, that is a note, not a finding.",
  "C11": " Also: subtractions on unsigned integers whose operands are never compared are reported (they underflow for small values); error spans are in the caller's text (C11-R4 = C12-R9).",
- "C19": " Also: the binary's on-disk session answers like an in-memory one (C19-R5 = C14-R2, C15-R6); the 12-digit rendering is the faithful one (C19-R6 = C08-R1..R7); the exponent of a displayed unit is printed digit by digit, most significant first (C19-R7); the text of a compound unit: numerator units joined by a dot, a slash, denominator units with negated powers, only a sole numerator unit pluralised (C19-R8, summary of compound::Display).",
+ "C19": " Also: the binary's on-disk session answers like an in-memory one (C19-R5 = C14-R2, C15-R6); the 12-digit rendering is the faithful one (C19-R6 = C08-R1..R7); the exponent of a displayed unit is printed digit by digit, most significant first (C19-R7); the text of a compound unit: numerator units joined by a dot, a slash, denominator units with negated powers, only a sole numerator unit pluralised (C19-R8, summary of compound::Display); one unit is prefix (found for stored prefix + bias), name with the pluralize flag unchanged, exponent (C19-R9); base units print their SI symbol, derived units their own table's name (C19-R10).",
 }
 ALIAS_NOTE = (" Functions, types and fields renamed or moved against the reference tree (ref/fn_reference.json) are recognised by "
               "signature / shape and call-graph position and analysed under the names the rules know (sa/aliases.py); a consistent "
